@@ -97,3 +97,34 @@ def c03(F, R, tier):
           'advanced to the evicted value), state never depends on the raw argument, ratio guards (100 when L=0; hold when G+L=0). ' + PARTIAL)
 def c05(F, R, tier):
     e_window.run_c05(F, R)
+
+
+from . import e_typed_props
+
+
+@register('C12', 'other',
+          'Positive-scaling clause only: homogeneity-degree typing of every operation of the 28 tabled views over the value graph '
+          '(fixpoint over state cells): sums/comparisons/selections only between quantities of equal degree (literal 0 and '
+          'sentinels are polymorphic, absolute constants such as epsilon are degree 0), transcendental functions only of '
+          'degree-0 arguments; the output degree equals the table (0 = unchanged, 1 = scales by a). ' + PARTIAL)
+def c12(F, R, tier):
+    e_typed_props.run_c12(F, R)
+
+
+@register('C10', 'proof',
+          'Proof of superposition in real arithmetic: by linearity typing of the value graph every float computed by the 8 '
+          'linear views is a linear form in the inputs with input-independent coefficients, no constant term is added and no '
+          'branch/comparison depends on data (integer/readiness guards only); by structural induction over the body and the '
+          'sequence of updates view(a·x+b·y) = a·view(x)+b·view(y). Unit DC gain of Sma/Alma/Cumulative windows from the '
+          'accumulator structure; DC gain / pole clauses of the recursive members are checked numerically under C09/C11.')
+def c10(F, R, tier):
+    e_typed_props.run_c10(F, R)
+
+
+@register('C04', 'other',
+          'Moving averages: no data-dependent branch in Sma/Ema/Alma (linearity typing), exact window for Sma/Alma, sum and '
+          'weight aggregates paired and mirrored, Ema update is x·w + e·(1−w) with the same w = alpha/(N+1) ∈ (0,1] and a '
+          'data-independent seed, Alma centre/width expressions and positive stored weights. From these the interval, '
+          'constant-reproduction, monotonicity and affine clauses follow in real arithmetic. ' + PARTIAL)
+def c04(F, R, tier):
+    e_typed_props.run_c04(F, R)
